@@ -119,9 +119,22 @@ class Templates:
         return self.made[key]
 
     def fresh(self, refs0, store0, layout="loose"):
+        """A new bare repository holding the commits of store0 (hard links to the template's loose
+        objects) and the refs of refs0, laid out loose or packed."""
         self.n += 1
         d = os.path.join(self.base, f"srv-{os.getpid()}-{self.n}")
-        shutil.copytree(self.template(store0), d)
+        t = self.template(store0)
+        os.mkdir(d)
+        for sub in ("objects", "objects/pack", "objects/info", "refs", "refs/heads", "refs/tags", "hooks", "info"):
+            os.mkdir(os.path.join(d, sub))
+        for f in ("HEAD", "config", "description"):
+            shutil.copyfile(os.path.join(t, f), os.path.join(d, f))
+        tobj = os.path.join(t, "objects")
+        for sub in os.listdir(tobj):
+            if len(sub) == 2:
+                os.mkdir(os.path.join(d, "objects", sub))
+                for f in os.listdir(os.path.join(tobj, sub)):
+                    os.link(os.path.join(tobj, sub, f), os.path.join(d, "objects", sub, f))
         fx = fixture()
         packed = []
         for idx, v in enumerate(refs0):
@@ -192,12 +205,38 @@ class Rec:
         return [self.fx.v(read_ref_file(self.root, REFNAMES[i])) for i in range(self.nrefs)]
 
     def store_now(self):
-        from dulwich.object_store import DiskObjectStore
-        st = DiskObjectStore(os.path.join(self.root, "objects"))
+        """Which fixture commits the object store holds, read from the directory: a loose file
+        objects/xx/yyyy, or an entry in the name table of a pack index (v2)."""
+        objdir = os.path.join(self.root, "objects")
+        idx = []
         try:
-            out = [i for i in range(1, self.fx.K + 1) if self.fx.sha[i] in st]
-        finally:
-            st.close()
+            for f in os.listdir(os.path.join(objdir, "pack")):
+                if f.endswith(".idx") and os.path.exists(os.path.join(objdir, "pack", f[:-4] + ".pack")):
+                    with open(os.path.join(objdir, "pack", f), "rb") as fh:
+                        idx.append(fh.read())
+        except FileNotFoundError:
+            pass
+        out = []
+        for i in range(1, self.fx.K + 1):
+            hx = self.fx.sha[i].decode()
+            if os.path.exists(os.path.join(objdir, hx[:2], hx[2:])):
+                out.append(i)
+                continue
+            raw = bytes.fromhex(hx)
+            for data in idx:
+                if data[:4] == b"\xfftOc":
+                    n = int.from_bytes(data[8 + 255 * 4:8 + 256 * 4], "big")
+                    pos = data.find(raw, 8 + 1024, 8 + 1024 + 20 * n)
+                    while pos != -1 and (pos - 8 - 1024) % 20:
+                        pos = data.find(raw, pos + 1, 8 + 1024 + 20 * n)
+                    if pos != -1:
+                        out.append(i)
+                        break
+                else:       # v1 index: 24-byte entries (offset, name) after the fan-out table
+                    n = int.from_bytes(data[255 * 4:256 * 4], "big")
+                    if any(data[1024 + 24 * j + 4:1024 + 24 * j + 24] == raw for j in range(n)):
+                        out.append(i)
+                        break
         return out
 
     def log(self, e):
